@@ -147,17 +147,31 @@ def build_file(rng, cs, ntext=None):
     mid = MidiFile(charset=cs, type=1)
     texts = []
     for ti in range(rng.choice((1, 2))):
-        tr = MidiTrack()
+        named = rng.random() < 0.3 and ntext is None
+        if named:
+            # the documented shortcuts for naming a track: add_track(name), track.name = ... (text in the file's charset)
+            s = rand_text(rng, cs)
+            if rng.random() < 0.5:
+                tr = mid.add_track(''.join(s))
+            else:
+                tr = MidiTrack()
+                mid.tracks.append(tr)
+                tr.name = ''.join(s)
+            texts.append((ti, 'track_name', s))
+        else:
+            tr = MidiTrack()
+            mid.tracks.append(tr)
         for _ in range(rng.randrange(1, 5) if ntext is None else ntext):
             t = rng.choice(rmeta.TEXT_TYPES)
             s = rand_text(rng, cs)
+            if ntext is None and rng.random() < 0.15:
+                tr.append(MetaMessage('end_of_track', time=rng.choice((0, 4))))          # (in mid-track: its delta moves on to what follows)
             tr.append(MetaMessage(t, **{rmeta.SPECS[t][1][0]: dress(rng, s)}, time=rng.choice((0, 1, 200))))
             texts.append((ti, t, s))
             if rng.random() < 0.5:
                 tr.append(Message('note_on', note=rng.randrange(128), time=rng.choice((0, 3, 130))))
             if rng.random() < 0.2:
                 tr.append(Message('sysex', data=(1, 2, 3), time=1))
-        mid.tracks.append(tr)
     return mid, texts
 
 
@@ -208,6 +222,27 @@ def roundtrip(ctx, cs, seed):
     want = [(ti, t, s.encode(cs)) for ti, t, s in texts]
     ctx.check('file payload == text.encode(charset)', got == want, f'payload:{cs}', case,
               lambda: {'got': [g[2].hex() for g in got][:4], 'want': [w[2].hex() for w in want][:4]})
+    if not used.startswith('frozen'):
+        # one text is edited in place and the file is saved again: the new bytes say the new text
+        cand = [(ti, m) for ti, tr in enumerate(mid.tracks) for m in tr if m.type in rmeta.TEXT_TYPES]
+        k = rng.randrange(len(cand))
+        ti, m = cand[k]
+        s2 = rand_text(rng, cs)
+        setattr(m, 'name' if hasattr(m, 'name') else 'text', ''.join(s2))
+        try:
+            buf2 = io.BytesIO()
+            mid.save(file=buf2)
+            d2 = smf.decode_file(buf2.getvalue())
+            got2 = [(ti_, rmeta.BY_BYTE.get(e[2]), bytes(e[3])) for ti_, tr in enumerate(d2['tracks'])
+                    for e in tr if e[0] == 'meta' and e[2] in rmeta.BY_BYTE and rmeta.BY_BYTE[e[2]] in rmeta.TEXT_TYPES]
+            want2 = list(want)
+            want2[k] = (want[k][0], want[k][1], ''.join(s2).encode(cs))
+            ctx.check('file payload == text.encode(charset)', got2 == want2, f'payload-after-edit:{cs}', case,
+                      lambda: {'edited': k, 'got': [g[2].hex() for g in got2][:4], 'want': [w[2].hex() for w in want2][:4]})
+        except Exception as exc:
+            ctx.fail('file payload == text.encode(charset)', f'save-after-edit-raised:{cs}', case, f'{type(exc).__name__}: {exc}')
+        check_probe(ctx, 'default charset after successful call', f'leak-after-second-save:{cs}', case)
+        setattr(m, 'name' if hasattr(m, 'name') else 'text', ''.join(texts[k][2]) if not isinstance(texts[k][2], str) else texts[k][2])
     if used:
         # and outside the file the very same message objects still encode with the default charset
         for tr in mid.tracks:
